@@ -380,13 +380,19 @@ pub fn replay(prop: &str, a: &[&str]) -> Result<(), String> {
             let p = unhex(a[1])?;
             let mut model = match decode(&p) { Some(m) => m, None => return Ok(()) };
             let mut pp = DNSSector::new(p.clone()).unwrap().parse().map_err(|e| e.to_string())?;
+            let mut opt_touched = false;
             for os in &a[2..] {
                 let op = op_from_str(os)?;
                 let before = model.clone();
                 // known policy corner: the OPT record edited through the generic record accessors
                 let on_opt = match &op { Op::SetName(3, k, _) | Op::SetTtl(3, k, _) => model.secs[2].get(*k).map_or(false, |r| r.rtype == 41), _ => false };
-                let tag = if on_opt { "[OPT record edited through a generic accessor] " } else { "" };
-                let r = (|| -> Result<(), String> {
+                // the damage may only surface at a later operation (e.g. the assert_eq!s of recompute), so the tag sticks to the rest of the sequence
+                if on_opt { opt_touched = true; }
+                let tag = if opt_touched { "[OPT record edited through a generic accessor] " } else { "" };
+                // C10 asks that a FAILED operation keeps the C08 invariant: only meaningful if it held before the call
+                let pre_policy = before.q.is_some() && (before.hdr[2] & 0x80 != 0 || (before.secs[0].is_empty() && before.secs[1].is_empty()));
+                let pre_ok = prop != "c10" || coherent(&mut pp, pre_policy).is_ok();
+                let r = std::panic::catch_unwind(std::panic::AssertUnwindSafe(|| -> Result<(), String> {
                 let out = apply(&mut pp, &model, &op, prop).map_err(|e| format!("{} at op {}", e, os))?;
                 model = out.model;
                 let bytes = pp.packet.clone().ok_or(format!("packet is None after {}", os))?;
@@ -394,8 +400,10 @@ pub fn replay(prop: &str, a: &[&str]) -> Result<(), String> {
                 if out.failed && !msg_eq(&got, &before) { return Err(format!("failed operation {} changed the message", os)); }
                 if !msg_eq(&got, &model) { return Err(format!("after {} the message is {} but the specification says {}", os, hex(&encode(&got)), hex(&encode(&model)))); }
                 let policy_ok = model.q.is_some() && (model.hdr[2] & 0x80 != 0 || (model.secs[0].is_empty() && model.secs[1].is_empty()));
-                coherent(&mut pp, policy_ok).map_err(|e| format!("{} after {}", e, os))?;
-                Ok(()) })();
+                // C09 is about the decoded message only; C10 about failed operations only; C08 and C11 check the object view after every step
+                let check_view = match prop { "c09" => false, "c10" => out.failed && pre_ok, _ => true };
+                if check_view { coherent(&mut pp, policy_ok).map_err(|e| format!("{} after {}", e, os))?; }
+                Ok(()) })).unwrap_or_else(|p| Err(format!("panic: {}", p.downcast_ref::<&str>().map(|s| s.to_string()).or_else(|| p.downcast_ref::<String>().cloned()).unwrap_or_default())));
                 r.map_err(|e| format!("{}{}", tag, e))?;
             }
             Ok(())
